@@ -489,6 +489,10 @@ class FnContract:
         self.note = d.get('note', '')
         self.reify = d.get('reify')
         self.split = d.get('split')
+        # fresh_params(ctx) -> {param: value}: parameters that are generated jointly (a message
+        # together with the value it encodes); sample_params(rng) is its native counterpart
+        self.fresh_params = _plain(d['fresh_params']) if 'fresh_params' in d else None
+        self.sample_params = _plain(d['sample_params']) if 'sample_params' in d else None
 
     def shape_of(self, pname, registry):
         if pname in self.shapes:
